@@ -671,7 +671,7 @@ func adjustForAnchors(pf prefilter.Prefilter, strategy Strategy, re *syntax.Rege
 	hasMultilineAnchor := hasMultilineLineAnchor(re)
 
 	if pf != nil && pf.IsComplete() {
-		if hasMultilineAnchor && !hasNonLineAnchors(re) {
+		if hasMultilineAnchor && !hasNonLineAnchors(re) && lineAnchorLeadsEveryBranch(re) {
 			// (?m)^ with complete literals and NO other anchors (\b, $):
 			// Use line-anchor wrapper — O(1) line-start check per candidate.
 			// This keeps IsComplete()=true so Teddy can return matches directly
@@ -685,6 +685,41 @@ func adjustForAnchors(pf prefilter.Prefilter, strategy Strategy, re *syntax.Rege
 	}
 
 	return pf, strategy
+}
+
+// lineAnchorLeadsEveryBranch reports whether (?m)^ is the first element of every
+// alternative of the pattern and occurs nowhere else. Only then does every match
+// begin at a line start, which is what the line-anchor wrapper checks for every
+// candidate: for (?m)^foo|bar the branch "bar" matches anywhere.
+func lineAnchorLeadsEveryBranch(re *syntax.Regexp) bool {
+	if re == nil {
+		return false
+	}
+	switch re.Op {
+	case syntax.OpCapture:
+		return len(re.Sub) == 1 && lineAnchorLeadsEveryBranch(re.Sub[0])
+	case syntax.OpAlternate:
+		for _, sub := range re.Sub {
+			if !lineAnchorLeadsEveryBranch(sub) {
+				return false
+			}
+		}
+		return len(re.Sub) > 0
+	case syntax.OpConcat:
+		if len(re.Sub) < 2 {
+			return false
+		}
+		if re.Sub[0].Op != syntax.OpBeginLine && !lineAnchorLeadsEveryBranch(re.Sub[0]) {
+			return false
+		}
+		for _, sub := range re.Sub[1:] {
+			if hasAnchorAssertions(sub) {
+				return false
+			}
+		}
+		return true
+	}
+	return false
 }
 
 // hasNonLineAnchors checks if the pattern has anchors other than (?m)^ line start.
